@@ -175,6 +175,17 @@ For the help of a specific family named <formula> type one of
 """
 
 
+class SeedAction(argparse.Action):
+    """Seed the random generator as soon as the option is parsed
+
+    Graph arguments (gnp, gnm, ...) are built while the rest of the
+    command line is parsed: seeding here makes them reproducible too.
+    """
+    def __call__(self, parser, args, values, option_string=None):
+        setattr(args, self.dest, values)
+        random.seed(values)
+
+
 def setup_command_line_parsers(progname, fhelpers):
     """Create the parser for formula and transformation arguments.
 
@@ -253,7 +264,7 @@ def setup_command_line_parsers(progname, fhelpers):
                         metavar="<seed>",
                         default=None,
                         type=int,
-                        action='store')
+                        action=SeedAction)
     g = parser.add_mutually_exclusive_group()
     g.add_argument('--verbose',
                    '-v',
